@@ -213,7 +213,8 @@ pub fn install_quiet_panic_hook() {
             .location()
             .map(|l| format!("{}:{}", l.file(), l.line()))
             .unwrap_or_default();
-        LAST_PANIC.with(|p| *p.borrow_mut() = Some(format!("{} @ {}", msg, loc)));
+        // (try_with: the hook may run while the thread's locals are being destroyed)
+        let _ = LAST_PANIC.try_with(|p| *p.borrow_mut() = Some(format!("{} @ {}", msg, loc)));
         if std::env::var_os("LV_SHOW_PANICS").is_some() {
             eprintln!("[panic] {} @ {}", msg, loc);
         }
@@ -222,11 +223,11 @@ pub fn install_quiet_panic_hook() {
 
 /// Runs `f`, converting a panic into `Err(message @ location)`.
 pub fn catch<T>(f: impl FnOnce() -> T) -> Result<T, String> {
-    LAST_PANIC.with(|p| *p.borrow_mut() = None);
+    let _ = LAST_PANIC.try_with(|p| *p.borrow_mut() = None);
     match panic::catch_unwind(AssertUnwindSafe(f)) {
         Ok(v) => Ok(v),
         Err(e) => {
-            let from_hook = LAST_PANIC.with(|p| p.borrow_mut().take());
+            let from_hook = LAST_PANIC.try_with(|p| p.borrow_mut().take()).ok().flatten();
             let msg = from_hook.unwrap_or_else(|| {
                 if let Some(s) = e.downcast_ref::<&str>() {
                     s.to_string()
